@@ -550,4 +550,16 @@ def normTy : Ty → Ty
   | .seq t => .seq (normTy t)
   | .opt t => .opt (normTy t)
 
+/-- output by output: the same key, and the supplemented type refines the standard one (an output the
+    standard routine left untyped may get any type; a typed one may not lose its type) -/
+def optLe : Option Ty → Option Ty → Bool
+  | _, none => true
+  | none, some _ => false
+  | some t, some t' => tyLe t t'
+
+def refinesAll : List (String × Option Ty) → List (String × Option Ty) → Bool
+  | [], [] => true
+  | (k, t) :: r, (k', t') :: std => k == k' && optLe t t' && refinesAll r std
+  | _, _ => false
+
 end Sing
